@@ -9,7 +9,7 @@ use crate::util::{catch, Args, Counters, Rng};
 use crate::world::{label_of_out, make_doc, text_labels};
 use serde::{Deserialize, Serialize};
 use serde_json::json;
-use std::collections::HashMap;
+use std::collections::{HashMap, HashSet};
 use std::io::Write;
 use std::sync::atomic::{AtomicU64, Ordering};
 use std::sync::Arc;
@@ -317,6 +317,7 @@ pub fn run_undo(prog: &UProgram) -> UResult {
     let mut redo_m: Vec<Entry> = vec![];
     let mut foreign: Vec<(String, String)> = vec![];
     let mut redo_cleared_nonempty = false;
+    let mut scoped_seen: HashSet<(u64, u32)> = HashSet::new();
     let mut violation: Option<(String, String)> = None;
     let tail = |log: &Vec<String>| log[log.len().saturating_sub(10)..].join(" ; ");
     macro_rules! fail {
@@ -329,6 +330,9 @@ pub fn run_undo(prog: &UProgram) -> UResult {
         let (ul, rl) = (mgr.undo_stack().len(), mgr.redo_stack().len());
         if ul != undo_m.len() || rl != redo_m.len() {
             fail!("harness", format!("mirror out of sync: stacks {}/{} mirror {}/{}", ul, rl, undo_m.len(), redo_m.len()));
+        }
+        if let Some(d) = kept_content_collected(&mgr, &doc, &mut scoped_seen, &mut cnt) {
+            fail!("kept-content-collected", d);
         }
         let before = scoped(&roots, &doc);
         let before_seq = scoped_seq(&roots, &doc);
@@ -628,7 +632,71 @@ pub fn run_undo(prog: &UProgram) -> UResult {
     UResult { violation, cnt, log }
 }
 
-pub fn gen_undo(rng: &mut Rng, thorough: bool) -> UProgram {
+/// C15 (last sentence) / C12: content an undo manager may still need is not collected. Every id in the deletions of an
+/// entry of the undo or redo stack must still be an item that holds its content (not a GC range, not `Deleted` content).
+fn kept_content_collected(mgr: &yrs::undo::UndoManager<()>, doc: &yrs::Doc, scoped_seen: &mut HashSet<(u64, u32)>, cnt: &mut Counters) -> Option<String> {
+    let txn = doc.transact();
+    let blocks = yrs::verif::store_blocks(&txn);
+    // units that belong to the scope (root 't', 'm' or 'x'), remembered while their items still say where they live:
+    // a tracked transaction may also delete in the untracked array, whose tombstones are rightly collected
+    let parent_of: HashMap<(u64, u32), &yrs::verif::ParentInfo> = blocks.iter().filter(|b| b.kind == 0).map(|b| ((b.id.client.get(), b.id.clock), &b.parent)).collect();
+    let starts: Vec<(u64, u32, u32)> = blocks.iter().filter(|b| b.kind == 0).map(|b| (b.id.client.get(), b.id.clock, b.len)).collect();
+    let holder = |id: &yrs::ID| -> Option<(u64, u32)> { starts.iter().find(|(c, k, l)| *c == id.client.get() && *k <= id.clock && id.clock < k + l).map(|(c, k, _)| (*c, *k)) };
+    for b in blocks.iter().filter(|b| b.kind == 0 && b.content != 1) {
+        let mut p = &b.parent;
+        let mut hops = 0;
+        let root = loop {
+            match p {
+                yrs::verif::ParentInfo::Root(n) => break Some(n.to_string()),
+                yrs::verif::ParentInfo::Nested(id) => match holder(id).and_then(|h| parent_of.get(&h)) {
+                    Some(pp) => p = pp,
+                    None => break None,
+                },
+                yrs::verif::ParentInfo::Inherit => break None,
+            }
+            hops += 1;
+            if hops > 64 {
+                break None;
+            }
+        };
+        if matches!(root.as_deref(), Some("t") | Some("m") | Some("x")) {
+            for k in b.id.clock..b.id.clock + b.len {
+                scoped_seen.insert((b.id.client.get(), k));
+            }
+        }
+    }
+    let mut collected: HashSet<(u64, u32)> = HashSet::new();
+    for b in blocks.iter() {
+        if b.kind == 1 || (b.kind == 0 && b.content == 1) {
+            for k in b.id.clock..b.id.clock + b.len {
+                collected.insert((b.id.client.get(), k));
+            }
+        }
+    }
+    let mut looked = 0u64;
+    for (name, stack) in [("undo", mgr.undo_stack()), ("redo", mgr.redo_stack())] {
+        for (i, item) in stack.iter().enumerate() {
+            for (client, ranges) in item.deletions().iter() {
+                for r in ranges.iter() {
+                    for k in r.start..r.end {
+                        let u = (client.get(), k);
+                        if !scoped_seen.contains(&u) {
+                            continue;
+                        }
+                        looked += 1;
+                        if collected.contains(&u) {
+                            return Some(format!("unit ({}, {}) of a scoped type is named by the deletions of entry {} of the {} stack but its content has been collected (gc)", client.get(), k, i, name));
+                        }
+                    }
+                }
+            }
+        }
+    }
+    cnt.add("kept_units_checked", looked);
+    None
+}
+
+pub fn gen_undo(rng: &mut Rng, thorough: bool, gc_heavy: bool) -> UProgram {
     let mut p = Profile::general();
     p.subdocs = false;
     p.nested = 15;
@@ -640,6 +708,7 @@ pub fn gen_undo(rng: &mut Rng, thorough: bool) -> UProgram {
     for _ in 0..n {
         let k = rng.usize(1..3);
         steps.push(match rng.u8(0..20) {
+            9 | 15 if gc_heavy => UStep::Gc,
             0..=8 => UStep::Edit { tracked: true, calls: (0..k).map(|_| gen_call(rng, &p)).collect() },
             9 | 10 => UStep::Tick { ms: if rng.bool() { 500 } else { 10 } },
             11..=14 => UStep::Undo,
@@ -655,7 +724,8 @@ pub fn gen_undo(rng: &mut Rng, thorough: bool) -> UProgram {
             _ => UStep::Tick { ms: 500 },
         });
     }
-    UProgram { gc: rng.bool(), bytes: rng.bool(), steps }
+    let gc = rng.bool();
+    UProgram { gc: gc || gc_heavy, bytes: rng.bool(), steps }
 }
 
 fn minimise(prog: &UProgram, kind: &str, budget: usize) -> UProgram {
@@ -720,6 +790,7 @@ fn minimise(prog: &UProgram, kind: &str, budget: usize) -> UProgram {
 pub fn cmd_undo(args: &Args) -> i32 {
     let tier = args.str("tier", "quick");
     let seed = args.u64("seed", 1);
+    let prop = args.str("as", "C12");
     let from = args.u64("from", 0);
     let count = args.u64("count", 100);
     let out = args.str("out", "");
@@ -741,9 +812,19 @@ pub fn cmd_undo(args: &Args) -> i32 {
                 let _ = writeln!(f, "{}", idx);
             }
         }
-        let mut rng = Rng::with_seed(crate::util::fnv_str(&format!("{}/C12/{}", seed, idx)));
-        let prog = gen_undo(&mut rng, tier == "thorough");
-        let res = run_undo(&prog);
+        let mut rng = Rng::with_seed(crate::util::fnv_str(&format!("{}/{}/{}", seed, prop, idx)));
+        let prog = gen_undo(&mut rng, tier == "thorough", prop == "C15");
+        let mut res = run_undo(&prog);
+        if prop == "C15" {
+            // this population (gc always on, many forced collections) is reported under C15 for what C15 states:
+            // forced gc changes nothing visible, and what the stacks still need keeps its content
+            if let Some((k, _)) = &res.violation {
+                if !(k == "kept-content-collected" || k == "gc-visible" || k.starts_with("panic:")) {
+                    total.inc("violations_of_other_properties_not_reported_here");
+                    res.violation = None;
+                }
+            }
+        }
         evaluations += 1;
         total.merge(&res.cnt);
         if res.cnt.get("undo_effective") + res.cnt.get("redo_effective") >= 1 {
@@ -757,15 +838,15 @@ pub fn cmd_undo(args: &Args) -> i32 {
                 harness_errors.push(json!({"idx": idx, "error": d}));
                 continue;
             }
-            let mut entry = json!({"prop": "C12", "kind": k, "detail": d, "idx": idx});
+            let mut entry = json!({"prop": prop, "kind": k, "detail": d, "idx": idx});
             if !seen.contains(&k) {
                 seen.push(k.clone());
                 let min = minimise(&prog, &k, 400);
                 let minres = run_undo(&min);
                 let _ = std::fs::create_dir_all(&replay_dir);
-                let path = format!("{}/C12-{}-s{}-i{}.json", replay_dir, k.replace(|c: char| !c.is_alphanumeric(), "_"), seed, idx);
-                let doc = json!({"workload": "undo", "prop": "C12", "tier": tier, "seed": seed, "idx": idx,
-                    "violation": {"prop": "C12", "kind": k, "detail": d}, "program": prog,
+                let path = format!("{}/{}-{}-s{}-i{}.json", replay_dir, prop, k.replace(|c: char| !c.is_alphanumeric(), "_"), seed, idx);
+                let doc = json!({"workload": "undo", "prop": prop, "tier": tier, "seed": seed, "idx": idx,
+                    "violation": {"prop": prop, "kind": k, "detail": d}, "program": prog,
                     "minimised": {"program": min, "log": minres.log, "detail": minres.violation.as_ref().map(|x| x.1.clone())}});
                 if std::fs::write(&path, serde_json::to_string_pretty(&doc).unwrap()).is_ok() {
                     entry["replay"] = json!(path);
@@ -778,7 +859,7 @@ pub fn cmd_undo(args: &Args) -> i32 {
             }
         }
     }
-    let summary = json!({"workload": "undo", "prop": "C12", "tier": tier, "seed": seed, "from": from, "count": count,
+    let summary = json!({"workload": "undo", "prop": prop, "tier": tier, "seed": seed, "from": from, "count": count,
         "evaluations": evaluations, "hashes": hashes, "counters": total.0, "violations": violations, "samples": samples, "harness_errors": harness_errors});
     let text = serde_json::to_string(&summary).unwrap();
     if out.is_empty() {
@@ -798,7 +879,7 @@ pub fn replay_undo(doc: &serde_json::Value, full: bool) -> i32 {
     }
     match res.violation {
         Some((k, d)) => {
-            println!("REPLAY violation property=C12 kind={}\n{}", k, d);
+            println!("REPLAY violation property={} kind={}\n{}", doc["prop"].as_str().unwrap_or("C12"), k, d);
             1
         }
         None => {
